@@ -412,7 +412,8 @@ def sib_fwd_sched(ctx: Ctx) -> RuleResult:
                 if a is None:
                     r.violate(f"{f.short}: scheduler entered without '{p}'", f.loc(call), "", norm_src(call))
                 elif p == m.bound_name:
-                    okb = isinstance(a, ast.Attribute) and dotted(a.value) == "self" and a.attr in base.fields
+                    okb = isinstance(a, ast.Attribute) and dotted(a.value) in ("self", "self.dag") and a.attr in base.fields
+                    # (`self.dag.<field>`: the same live field of the DAG, read on the executor's side)
                     if not okb:
                         r.violate(f"{f.short}: the scheduler's bound is '{norm_src(a)}', not the DAG's max_concurrency field", f.loc(call),
                                   "the limit configured on the DAG (constructor, config_from_dict, attribute) must be the one the "
